@@ -31,6 +31,7 @@ package main
 
 import (
 	"bufio"
+	"context"
 	"fmt"
 	"io"
 	"net"
@@ -199,12 +200,24 @@ func (lw *wsconcWorld) setup(f []string) string {
 	max, _ := attr(f, "max")
 	mode, _ := attr(f, "rw")
 	lw.raw = mode != "conn"
-	ln, err := net.Listen("tcp", "127.0.0.1:0")
+	// socket buffer sizes are set before listen / connect: changing them on an established connection shrinks the
+	// advertised window under the sender's feet and every refill then waits for a retransmission timer
+	sockopt := func(opt int, v string) func(network, address string, c syscall.RawConn) error {
+		return func(network, address string, c syscall.RawConn) error {
+			if v != "" && v != "0" {
+				_ = c.Control(func(fd uintptr) { _ = syscall.SetsockoptInt(int(fd), syscall.SOL_SOCKET, opt, atoi(v)) })
+			}
+			return nil
+		}
+	}
+	lc := net.ListenConfig{Control: sockopt(syscall.SO_RCVBUF, rcv)}
+	ln, err := lc.Listen(context.Background(), "tcp", "127.0.0.1:0")
 	if err != nil {
 		return "fail-listen"
 	}
 	defer ln.Close()
-	nc, err := net.Dial("tcp", ln.Addr().String())
+	d := net.Dialer{Control: sockopt(syscall.SO_SNDBUF, snd)}
+	nc, err := d.Dial("tcp", ln.Addr().String())
 	if err != nil {
 		return "fail-dial"
 	}
@@ -214,12 +227,6 @@ func (lw *wsconcWorld) setup(f []string) string {
 		return "fail-accept"
 	}
 	lw.peer = p.(*net.TCPConn)
-	if snd != "" && snd != "0" {
-		_ = nc.(*net.TCPConn).SetWriteBuffer(atoi(snd))
-	}
-	if rcv != "" && rcv != "0" {
-		_ = lw.peer.SetReadBuffer(atoi(rcv))
-	}
 	if lw.rc, err = nc.(syscall.Conn).SyscallConn(); err != nil {
 		return "fail-rawconn"
 	}
@@ -456,35 +463,43 @@ func (lw *wsconcWorld) outstanding() []int {
 // reads need, and the loop is polled until nothing moves any more.
 func (lw *wsconcWorld) finish() {
 	id := 9000
-	for lw.cbs[id] != nil {
-		id++
-	}
-	lw.exec([]string{"flush", strconv.Itoa(id)})
-	idle := 0
-	for round := 0; round < 600 && idle < 4; round++ {
-		before := lw.moved
-		lw.drain()
-		if len(lw.outstanding()) == 0 && lw.rxPeer >= lw.txBytes {
-			break
+	for attempt := 0; attempt < 6; attempt++ {
+		for lw.cbs[id] != nil {
+			id++
 		}
-		if lw.readBusy && !lw.peerEOF && idle >= 1 && lw.rxFrames == len(lw.peerEnds) {
-			if lw.peerFrag {
-				lw.exec([]string{"peer", "1", "0", "0", "0", "7a"})
+		lw.exec([]string{"flush", strconv.Itoa(id)})
+		idle := 0
+		for round := 0; round < 600 && idle < 3; round++ {
+			before := lw.moved
+			lw.drain()
+			if len(lw.outstanding()) == 0 && lw.rxPeer >= lw.txBytes && lw.ioc.Pending() == 0 {
+				// nothing is owed, the peer has everything and no reactor is armed (a flush the library started
+				// for itself shows only in the loop's pending count)
+				break
+			}
+			if lw.readBusy && !lw.peerEOF && idle >= 1 && lw.rxFrames == len(lw.peerEnds) {
+				if lw.peerFrag {
+					lw.exec([]string{"peer", "1", "0", "0", "0", "7a"})
+				} else {
+					lw.exec([]string{"peer", "1", "0", "1", "0", "7a"})
+				}
+			}
+			if lw.readBusy && lw.rxBytes < lw.peerSent {
+				waitReady(lw.cfd, unix.POLLIN, 20)
+			}
+			lw.exec([]string{"poll"})
+			if lw.moved == before {
+				idle++
+				if lw.writeBusy() {
+					waitReady(lw.cfd, unix.POLLOUT, 30)
+				}
 			} else {
-				lw.exec([]string{"peer", "1", "0", "1", "0", "7a"})
+				idle = 0
 			}
 		}
-		if lw.readBusy && lw.rxBytes < lw.peerSent {
-			waitReady(lw.cfd, unix.POLLIN, 20)
-		}
-		lw.exec([]string{"poll"})
-		if lw.moved == before {
-			idle++
-			if lw.writeBusy() {
-				waitReady(lw.cfd, unix.POLLOUT, 30)
-			}
-		} else {
-			idle = 0
+		// replies queued by reads that completed meanwhile need one more flush
+		if lw.ws.Pending() == 0 || lw.ioErr {
+			break
 		}
 	}
 	lw.drain()
